@@ -541,6 +541,12 @@ func unsafePtr(itm *nitro.Item) unsafe.Pointer { return unsafe.Pointer(itm) }
 // and mutexes LoadFromDisk uses are local to the call, so if all its goroutines are
 // parked on them nobody can ever wake one of them: the call can never return.
 func loaderSample() (sig string, allParked bool, n int) {
+	return callSample("nitro.(*Nitro).LoadFromDisk")
+}
+
+// callSample is loaderSample for an arbitrary function name (its goroutines = those whose
+// stack mentions the name, including func literals and goroutines created by it).
+func callSample(fn string) (sig string, allParked bool, n int) {
 	buf := make([]byte, 1<<20)
 	for {
 		k := runtime.Stack(buf, true)
@@ -554,7 +560,7 @@ func loaderSample() (sig string, allParked bool, n int) {
 	allParked = true
 	for _, g := range strings.Split(string(buf), "\n\n") {
 		nl := strings.IndexByte(g, '\n')
-		if nl < 0 || !strings.Contains(g, "nitro.(*Nitro).LoadFromDisk") {
+		if nl < 0 || !strings.Contains(g, fn) {
 			continue
 		}
 		hdr := g[:nl] // goroutine 12 [chan send, 2 minutes]:
@@ -634,4 +640,36 @@ func perturber(seed int64, intensity int) func(id int) {
 		}
 		y()
 	}
+}
+
+// runWithDeadlockProbe runs f in its own goroutine. It returns done=false, stuck=true when every
+// goroutine whose stack mentions fn is parked on a synchronisation primitive, identically in four
+// consecutive samples (a deadlock inside the call); done=false, stuck=false when the sampling
+// budget ran out without a decision (inconclusive).
+func runWithDeadlockProbe(fn string, f func()) (done, stuck bool) {
+	ch := make(chan struct{})
+	go func() { defer close(ch); f() }()
+	wait := 250 * time.Millisecond
+	lastSig, same := "", 0
+	for i := 0; i < 60; i++ {
+		select {
+		case <-ch:
+			return true, false
+		case <-time.After(wait):
+			sig, parked, _ := callSample(fn)
+			if parked && sig == lastSig {
+				same++
+				if same >= 3 {
+					return false, true
+				}
+			} else {
+				same = 0
+			}
+			lastSig = sig
+			if wait < 2*time.Second {
+				wait += wait / 2
+			}
+		}
+	}
+	return false, false
 }
